@@ -490,6 +490,7 @@ Fixpoint eval (e : mexpr) (en : env) {struct e} : tree outcome :=
       | MV (VI p), MV (VI q) =>
           if o =? 1 then ret1 (MV (VI (p + q))) en2
           else if o =? 2 then (if negb (q <=? p) then Leaf OPanic else ret1 (MV (VI (p - q))) en2)
+          else if o =? 3 then (if q =? 0 then Leaf OPanic else ret1 (MV (VI (p mod q))) en2)      (* % on usize *)
           else Leaf OType
       | _, _ => Leaf OType
       end
